@@ -366,3 +366,21 @@ func min(a, b int) int {
 	}
 	return b
 }
+
+// SeedCorpus is the starting corpus for the native fuzz targets: the spec
+// examples, the saved regression inputs and hostile constants.
+func SeedCorpus() [][]byte {
+	var out [][]byte
+	for i, e := range Spec {
+		if i%4 == 0 {
+			out = append(out, []byte(e.Markdown))
+		}
+	}
+	for _, e := range Extra {
+		out = append(out, []byte(e))
+	}
+	for _, p := range Payloads {
+		out = append(out, []byte(p))
+	}
+	return out
+}
